@@ -74,7 +74,12 @@ def _expectedFailure(func):
         try:
             func(*args, **kwargs)
         except Exception:
-            raise _ExpectedFailure(sys.exc_info())
+            exc_info = sys.exc_info()
+            case = getattr(func, "__self__", None)
+            if hasattr(case, "_report_traceback"):
+                # Like expectFailure(): keep the traceback of what failed.
+                case._report_traceback(exc_info)
+            raise _ExpectedFailure(exc_info)
         raise _UnexpectedSuccess
 
     return wrapper
